@@ -307,7 +307,7 @@ Proof. reflexivity. Qed.
 Lemma ndigits_bound n : n < 9223372036854775808 -> (length (digits n) <= 19)%nat.
 Proof.
   intro H. rewrite digits_length. apply ndigits_le_pow; [|lia].
-  eapply N.lt_le_trans; [exact H|]. cbn. lia.
+  eapply N.lt_le_trans; [exact H|]. apply N.leb_le. vm_compute. reflexivity.
 Qed.
 
 Lemma digits_no c n : is_digit c = false -> ~ In c (digits n).
